@@ -143,13 +143,27 @@ class Ctx:
         return val
 
     def choose(self, name: str, n: int) -> int:
-        """A symbolic integer in [0, n) concretised by forking."""
+        """A symbolic integer in [0, n) concretised by an n-way fork.
+
+        The constant is fresh (declared here, constrained only to its range), so under any path condition each of the n
+        values is feasible: no feasibility query is needed, the fork is recorded as one n-ary decision."""
         z = z3.Int(name)
         self.declare(name, z, z >= 0, z < n)
-        for k in range(n - 1):
-            if self.decide(z == k):
-                return k
-        return n - 1
+        sig = "choose:%s:%d" % (name, n)
+        if self.pos < len(self.prefix):
+            val, alt, sx = self.prefix[self.pos]
+            if sx != sig:
+                raise HarnessError("nondeterministic re-execution: decision %d asked %s, recorded %s" % (self.pos, sig, sx))
+        else:
+            val = 0
+            self.prefix.append((val, n > 1, sig))
+        self.pos += 1
+        self.decisions += 1
+        lit = z == val
+        self.solver.add(lit)
+        self.model = None
+        self.trail.append((lit, True))
+        return val
 
     def prune(self):
         raise PathPruned()
@@ -233,7 +247,12 @@ def explore(path_fn: Callable[[Ctx], None], max_paths: int = 20000, max_wall: fl
         if ctx.paths >= max_paths or time.perf_counter() - t0 > max_wall:
             ex.truncated = True
             break
-        prefix = taken[:i] + [(not taken[i][0], False, taken[i][2])]
+        if taken[i][2].startswith("choose:"):
+            n = int(taken[i][2].rsplit(":", 1)[1])
+            nv = taken[i][0] + 1
+            prefix = taken[:i] + [(nv, nv < n - 1, taken[i][2])]
+        else:
+            prefix = taken[:i] + [(not taken[i][0], False, taken[i][2])]
     ex.paths = ctx.paths
     ex.pruned = ctx.pruned_paths
     # coverage obligation: the explored path conditions are jointly exhaustive
